@@ -154,6 +154,7 @@ func (j *cacheJanitor[MetadataT]) cleanExpiredEntries() {
 	}
 
 	endCacheSize := j.cacheFns.getCacheSize()
+	verifhook.Point("janitor.beforePublish", "sweep")
 	metrics.Global.Cache.BytesCached.Set(endCacheSize)
 	metrics.Global.Cache.BytesCleaned.Add(startCacheSize - endCacheSize)
 
@@ -228,6 +229,7 @@ func (j *cacheJanitor[MetadataT]) evict(maxCacheBytes int64) {
 	}
 
 	endCacheSize := j.cacheFns.getCacheSize()
+	verifhook.Point("janitor.beforePublish", "evict")
 	metrics.Global.Cache.BytesCached.Set(endCacheSize)
 	metrics.Global.Cache.BytesCleaned.Add(startCacheSize - endCacheSize)
 
